@@ -3,7 +3,7 @@
 From Coq Require Import List NArith ZArith Bool Lia Arith ZifyBool ZifyN ZifyNat.
 From Coq Require Import Strings.Byte.
 From Falco Require Import Base.Res Base.Bytes Base.Utf8 Proofs.Utf8Proofs Gen.Tokens Model.Lex Model.Pump
-  Proofs.LexProgress Proofs.C20Lex Proofs.C20Chain Proofs.C20Table Proofs.C20Acl.
+  Proofs.LexProgress Proofs.C20Classes Proofs.C20Lex Proofs.C20Chain Proofs.C20Table Proofs.C20Acl.
 From Falco Require Model.Escape Proofs.EscapeProofs Gen.TokenTypes Model.ParseBase Model.ParseLit Model.Ast Model.Yield
   Model.ParseDecl Model.LexParse Proofs.ParsePratt Proofs.ParseLitFacts Proofs.ParseProgram Proofs.ParseProgram4 Proofs.ParseProgram5.
 Import ListNotations.
@@ -15,7 +15,7 @@ Proof.
   unfold E.sanitize. induction (dec_all s) as [|r rs IH]; [reflexivity|].
   cbn [map forallb]. rewrite IH, andb_true_r.
   destruct (E.word_rune r) eqn:W; [|reflexivity].
-  unfold E.word_rune in W. unfold idchar, letterb, digitb, is_letter, is_decimal, in_rng.
+  unfold E.word_rune in W. unfold idchar, letterb, digitb; cls.
   rewrite b2n_n2b_small by lia. lia.
 Qed.
 
@@ -255,7 +255,7 @@ Proof.
   - eapply (chain_spec_eq _ ([x20] ++ E.decimal m) (x25 :: _)); [seg_eq | discriminate | reflexivity | |].
     { apply (step_of_cstep [x20] (E.decimal m) (x25 :: _)); [reflexivity | |apply cstep_int; [exact Hne | exact Hdig | apply int_end_percent]].
       destruct (E.decimal m) as [|d ds]; [congruence|]. cbn [app]. simpl in Hdig. apply andb_true_iff in Hdig. destruct Hdig as [Hd _].
-      unfold digitb, is_decimal, in_rng in Hd. split; [unfold ascii; lia|]. unfold is_space. lia. }
+      unfold digitb in Hd; cls in Hd. split; [unfold ascii; lia|]. cls. lia. }
     cbn [app].
     eapply (chain_spec_eq _ [x25] (x3b :: _)); [seg_eq | discriminate | reflexivity | apply step_percent; cbn; lia|].
     eapply (chain_spec_eq _ ([] ++ [x3b])); [seg_eq | discriminate | reflexivity | apply step_semi; reflexivity|].
@@ -263,7 +263,7 @@ Proof.
   - eapply (chain_spec_eq _ ([x20] ++ E.decimal m) (x3b :: _)); [seg_eq | discriminate | reflexivity | |].
     { apply (step_of_cstep [x20] (E.decimal m) (x3b :: _)); [reflexivity | |apply cstep_int; [exact Hne | exact Hdig | apply int_end_semi]].
       destruct (E.decimal m) as [|d ds]; [congruence|]. cbn [app]. simpl in Hdig. apply andb_true_iff in Hdig. destruct Hdig as [Hd _].
-      unfold digitb, is_decimal, in_rng in Hd. split; [unfold ascii; lia|]. unfold is_space. lia. }
+      unfold digitb in Hd; cls in Hd. split; [unfold ascii; lia|]. cls. lia. }
     cbn [app].
     eapply (chain_spec_eq _ ([] ++ [x3b])); [seg_eq | discriminate | reflexivity | apply step_semi; reflexivity|].
     exact Hc.
